@@ -466,7 +466,8 @@ def rule_D2(ctx):
         tries = [x for x in own_walk(g.node) if isinstance(x, ast.Try)]
         ok = False
         for t in tries:
-            calls = [x for b in t.body for x in ast.walk(b) if isinstance(x, ast.Call) and isinstance(x.func, ast.Attribute) and x.func.attr.startswith('_read')]
+            calls = [x for b in t.body for x in ast.walk(b) if isinstance(x, ast.Call) and isinstance(x.func, ast.Attribute)
+                     and ast.unparse(x.func.value) == 'self' and x.func.attr in bits.methods]
             for c in calls:
                 readers.add(c.func.attr)
             for h in t.handlers:
@@ -489,7 +490,8 @@ def rule_D2(ctx):
         seen.add(nm)
         f = bits.methods[nm]
         for x in own_walk(f.node):
-            if isinstance(x, ast.Call) and isinstance(x.func, ast.Attribute) and x.func.attr.startswith('_read') and ast.unparse(x.func.value) == 'self':
+            if isinstance(x, ast.Call) and isinstance(x.func, ast.Attribute) and ast.unparse(x.func.value) == 'self' and x.func.attr in bits.methods \
+                    and 'pos' in bits.methods[x.func.attr].params():
                 work.append(x.func.attr)
         guarded_lines = set()
         for t in [x for x in own_walk(f.node) if isinstance(x, ast.Try)]:
@@ -588,11 +590,30 @@ def rule_E9(ctx):
         sf = m.func_by_dotted(e['set_fn'])
         if sf is not None:
             targets.append((sf, {'CreationError', 'ValueError'}))
-    # base decoders: _read* functions that index self directly
-    for nm, f in bits.methods.items():
-        if nm.startswith('_read') and any(isinstance(x, ast.Subscript) and ast.unparse(x.value) == 'self' and not isinstance(x.slice, ast.Slice)
-                                          for x in own_walk(f.node)) and not any(
-                isinstance(x, ast.Call) and isinstance(x.func, ast.Attribute) and x.func.attr.startswith('_read') and x.func.attr != nm for x in own_walk(f.node)):
+    # base decoders: the functions the getters decode with (and their callees taking a position) that index self
+    # directly and do not delegate to another decoder
+    dec = set()
+    work = []
+    for e in var:
+        g = m.func_by_dotted(e['get_fn'])
+        for t in [x for x in own_walk(g.node) if isinstance(x, ast.Try)]:
+            for b in t.body:
+                for x in ast.walk(b):
+                    if isinstance(x, ast.Call) and isinstance(x.func, ast.Attribute) and ast.unparse(x.func.value) == 'self' and x.func.attr in bits.methods:
+                        work.append(x.func.attr)
+    while work:
+        nm = work.pop()
+        if nm in dec:
+            continue
+        dec.add(nm)
+        for x in own_walk(bits.methods[nm].node):
+            if isinstance(x, ast.Call) and isinstance(x.func, ast.Attribute) and ast.unparse(x.func.value) == 'self' and x.func.attr in bits.methods \
+                    and 'pos' in bits.methods[x.func.attr].params():
+                work.append(x.func.attr)
+    for nm in sorted(dec):
+        f = bits.methods[nm]
+        if any(isinstance(x, ast.Subscript) and ast.unparse(x.value) == 'self' and not isinstance(x.slice, ast.Slice) for x in own_walk(f.node)) and not any(
+                isinstance(x, ast.Call) and isinstance(x.func, ast.Attribute) and x.func.attr in dec and x.func.attr != nm for x in own_walk(f.node)):
             targets.append((f, {'ReadError'}))
     if len(targets) < 6:
         raise AnalysisError(f'only {len(targets)} exp-Golomb setters/decoders found (floor 6)')
